@@ -14,7 +14,12 @@ class FunctionCall:
         self._args = args
         self._kwargs = kwargs
         self._context = {**context, **func.globals}  # names of the caller, then those of the module of the function
-        self._instance = self.args[0] if self.func.is_instance_method else None
+
+        if self.func.is_instance_method:  # the receiver is the first argument, or (K.m(self=obj, ...)) the keyword argument self
+            self._instance = self.args[0] if self.args else self.kwargs.get('self')
+        else:
+            self._instance = None
+
         self._type_vars = dict()
         self._params_without_self = {k: v for k, v in self.func.signature.parameters.items() if v.name != 'self'}
         self._already_checked_kwargs = []
@@ -35,7 +40,8 @@ class FunctionCall:
 
     @property
     def not_yet_check_kwargs(self) -> Dict[str, Any]:
-        return {k: v for k, v in self._kwargs.items() if k not in self._already_checked_kwargs}
+        receiver = 'self' if self.func.is_instance_method else None  # passed by keyword it is no value for **kwargs
+        return {k: v for k, v in self._kwargs.items() if k not in self._already_checked_kwargs and k != receiver}
 
     @property
     def type_vars(self) -> Dict[TypeVar, Any]:
